@@ -185,7 +185,13 @@ def explore(ctx):
                "(let loop ((i 0)) i)", "(cond)", "(case)", "(let)", "(let ((x)) x)", "(let ((x 1 2)) x)", "(let (x) x)",
                "#(1 . 2)", "'#(1 . 2)", "'(1 . 2 3)", "'(. 1)", "'( . )", "(1 . 2)", "#u8(1 2)", "`(a ,b)", ",a", "#\\", "\"\\q\"",
                "\"abc", "|abc", "(car (cdr (list 1)))", "(vector-set! (vector 1 2) -1 0)", "(vector-ref (vector 1 2) -1)",
-               "(list-tail '(1 2) -1)", "(make-list -1 0)", "(list-ref '(1 2) -1)"]
+               "(list-tail '(1 2) -1)", "(make-list -1 0)", "(list-ref '(1 2) -1)",
+               # library names whose parts are unusual as path components
+               "(import (scheme ..))", "(import (..))", "(import (a ...))", "(import (|/|))", "(import (|a/b| c))", "(import (|| x))",
+               "(import (scheme |..|))", "(import (a b.c))", "(import (a .b))", "(import (a 1))", "(import (a 1.5))",
+               "(import (a #t))", "(import (scheme base.))", "(import (a |b c|))", "(import (a/b))", "(import (... ...))",
+               "(import (only (..) x))", "(import (prefix (a ..) p))", "(import ())", "(import (a ()))", "(import (a \"s\"))",
+               "(define-library (..) (export) (begin))", "(define-library (a ..) (export x) (begin (define x 1))) (import (a ..))"]
     add(special, "special forms and literals", per=10)
     results, ndis = common.run_cases(ctx, cases, compare=compare, timeout=30)
     outcomes = {}
@@ -231,7 +237,7 @@ def explore(ctx):
         "rule": "every string up to length %d over a 20-character alphabet%s; token soup over the vocabulary of keywords, "
                 "builtins and boundary literals with balanced and unbalanced parentheses; token-level mutations of valid "
                 "programs and of the bundled library sources; random Unicode / control characters; every builtin on tuples "
-                "of boundary values; a list of special malformed forms; program and library files that are not UTF-8 or "
+                "of boundary values; a list of special malformed forms, among them imports of library names whose parts are unusual path components (.., ..., |/|, ||, numbers); program and library files that are not UTF-8 or "
                 "are directories. Each text is evaluated on a standard interpreter and followed by (+ 1 2) on the same "
                 "interpreter. Compared: outcome class (value / error kind / panic / abort) model vs implementation; the "
                 "property itself (no panic, no abort, sanity form still 3) is checked on the implementation's output. "
